@@ -141,6 +141,7 @@ class C14(Prop):
                 if which == "reindex_axis":
                     from .c07 import new_labels
                     c["labels"], _ = new_labels(rng, ax)
+                    c["fill"] = rng.choice([None, None, 0.5, -1.5, 7])      # explicit fills that an integer variable cannot hold
                 yield c
             elif r < 0.72:
                 dd = gen_dataset(rng, numeric=True, minn=2)
@@ -253,8 +254,9 @@ class C14(Prop):
                 if op == "reindex_axis":
                     kind = c["ds"]["axes"][c["dim"]]["kind"]
                     lab = core.label_array(c["labels"], kind)
-                    r = ds.reindex_axis(lab, axis=self.key_of(c, ds))
-                    return r, per_var(lambda v: v.reindex_axis(lab, axis=c["dim"])), True
+                    kw = {} if c.get("fill") is None else {"fill_value": c["fill"]}
+                    r = ds.reindex_axis(lab, axis=self.key_of(c, ds), **kw)
+                    return r, per_var(lambda v: v.reindex_axis(lab, axis=c["dim"], **kw)), True
                 if op == "interp_axis":
                     lab = core.label_array(c["labels"], "f")
                     r = ds.interp_axis(lab, axis=c["dim"])
